@@ -76,7 +76,7 @@ def check_C03(F, tier, t0):
     fns = spec_bdd.BDD_SCOPE['C03']
     run_S(R, E, fns)
     R.count('mk_choice-call-sites', static_mk_choice_sites(F.lib(), fns))
-    R.floor('functions', 10); R.floor('worlds', 27); R.floor('mk_choice-call-sites', 8)
+    R.floor('functions', 10); R.floor('worlds', 12); R.floor('mk_choice-call-sites', 4)
     return finish(R, 'proof', tier, t0,
         'Inductive proof, by exhaustive enumeration of abstract worlds (leaf/choice shape of each operand, total pre-order of the compared symbols) of each '
         'function body taken from type-checked THIR, that and/or/not/implies/ite/eq/xor/nor/nand/var return the specified pointwise truth function for ALL operand '
@@ -91,7 +91,7 @@ def check_C04(F, tier, t0):
     fns = spec_bdd.BDD_SCOPE['C04']
     run_S(R, E, fns)
     R.count('mk_choice-call-sites', static_mk_choice_sites(F.lib(), fns))
-    R.floor('functions', 3); R.floor('worlds', 7); R.floor('mk_choice-call-sites', 1)
+    R.floor('functions', 3); R.floor('worlds', 3); R.floor('mk_choice-call-sites', 1)
     return finish(R, 'proof', tier, t0,
         'exists_impl(s,b) = b|s=1 or b|s=0 proved by structural induction in the cofactor-pair domain (every atom is the pair of its two cofactors; children of an '
         'ordered node testing s are independent of s); s is not in the support of the result and support(result) is within support(b); exists(V,b) is exactly the fold of '
@@ -107,7 +107,7 @@ def check_C20(F, tier, t0):
     guarded(R, 'S helper predicates', run_S, R, E, spec_bdd.HELPER_FNS, spec_bdd.B, False)
     guarded(R, 'X4 retain', engine_x.rule_X4, F, R, ('retain',))
     R.count('mk_choice-call-sites', static_mk_choice_sites(F.lib(), fns))
-    R.floor('functions', 1); R.floor('worlds', 20); R.floor('mk_choice-call-sites', 3)
+    R.floor('functions', 1); R.floor('worlds', 8); R.floor('mk_choice-call-sites', 1)
     return finish(R, 'proof', tier, t0,
         'Per filter value, inductive proof over all shapes of the two recursively rebuilt children that retain(True) is implied by f, retain(False) implies f, retain(Any) is f '
         'itself; every rebuilt node is order-respecting (mk_choice obligations) and support(result) is within support(f). Reducedness is inherited from mk_choice (C02).',
@@ -148,7 +148,7 @@ def check_C01(F, tier, t0):
     guarded(R, 'S operations', run_S, R, E, spec_bdd.BDD_SCOPE['C03'] + spec_bdd.BDD_SCOPE['C04'] + spec_bdd.BDD_SCOPE['C05'] + ['fp'])
     guarded(R, 'T tokens', engine_t.rule_tokens, F, R, 'all')
     guarded(R, 'T operators', engine_t.rule_operator_tables, F, R)
-    R.floor('functions', 28); R.floor('worlds', 80); R.floor('T:symbol-spellings', 20); R.floor('T:keyword-spellings', 23)
+    R.floor('functions', 28); R.floor('worlds', 40); R.floor('T:symbol-spellings', 20); R.floor('T:keyword-spellings', 23)
     R.floor('T:binary-operator-rows', 8); R.floor('T:counting-operator-rows', 5); R.floor('T:fixed-point-rows', 2)
     return finish(R, 'other', tier, t0,
         'Decides the dispatch chain spelling -> token -> operator -> BDDEnv operation -> truth function for every construct: the symbol/keyword tables of tokenize and the '
@@ -183,7 +183,7 @@ def check_C02(F, tier, t0):
     guarded(R, 'E5', engine_e.rule_E5_events, R, res)
     guarded(R, 'H', engine_e.rule_H, F, R)
     # functions that do not call mk_choice must not build nodes any other way: covered by E1 (constructor sites) workspace-wide
-    R.floor('mk_choice-call-sites', 13); R.floor('E1:Choice-constructor-sites', 2); R.floor('functions', 12); R.floor('H:impl-bodies', 4); R.floor('mk_choice-sites-x-worlds', 20)
+    R.floor('mk_choice-call-sites', 6); R.floor('E1:Choice-constructor-sites', 2); R.floor('functions', 12); R.floor('H:impl-bodies', 4); R.floor('mk_choice-sites-x-worlds', 8)
     return finish(R, 'other', tier, t0,
         'Inductive invariant "every diagram handed out is ordered and reduced", decided as its code-dependent premises: (O) every one of the mk_choice call sites is '
         'order-respecting under every total pre-order of the symbols consistent with the guards of its path (engine S/O worlds); (R) all nodes are born in mk_choice, '
@@ -213,7 +213,7 @@ def check_C05(F, tier, t0):
     guarded(R, 'S eval_recursive (counting arms)', lang)
     guarded(R, 'T counting operators', engine_t.rule_operator_tables, F, R, ('countop',))
     guarded(R, 'T tokens', engine_t.rule_tokens, F, R, {'Eq', 'ImpliesInv', 'Geq', 'Lt', 'Gt'})
-    R.floor('functions', 12); R.floor('evaluator-counting-obligations', 10); R.floor('T:counting-operator-rows', 5)
+    R.floor('functions', 12); R.floor('evaluator-counting-obligations', 5); R.floor('T:counting-operator-rows', 5)
     return finish(R, 'proof', tier, t0,
         'Inductive proof (list induction, linear-integer normal forms decided exactly per linear form) that cmp_count(bs,n,cmp) = cmp(n - #true(bs)), aln/amn/exn = '
         '[#true >= / <= / = n], cmp_count_compare(a,b,n,cmp) = cmp(b, n + #true(a)) and the five list-versus-list comparisons, for arbitrary operand functions, repeated '
@@ -251,7 +251,7 @@ def check_C06(F, tier, t0):
         R.obligations += 2; R.discharged += 2 - min(2, len([v for v in sub.violations if 'FixedPoint' in v.key or 'FixedPoint' in v.msg]))
         R.count('A3:fixed-point-constructor-paths', 2)
     guarded(R, 'A3 (FixedPoint constructor)', a3_fixed_point)
-    R.floor('functions', 2); R.floor('evaluator-fixed-point-obligations', 7); R.floor('T:fixed-point-rows', 2)
+    R.floor('functions', 2); R.floor('evaluator-fixed-point-obligations', 4); R.floor('T:fixed-point-rows', 2)
     return finish(R, 'other', tier, t0,
         'Decides the code-dependent premises of Kleene iteration: (a) fp\'s loop, by one symbolic iteration from an arbitrary state: the state starts as the argument, the '
         'loop exits only when t(s) is structurally s, otherwise the next state is t(s), and the value returned is the state t maps to itself; (b) gfp/nu start from true, '
@@ -266,7 +266,7 @@ def check_C07(F, tier, t0):
     E = make_engine(F)
     guarded(R, 'S model/infer', run_S, R, E, spec_bdd.BDD_SCOPE['C07'])
     guarded(R, 'X4 model', engine_x.rule_X4, F, R, ('model',))
-    R.floor('functions', 2); R.floor('worlds', 9); R.floor('X4:model-before-printing', 1)
+    R.floor('functions', 2); R.floor('worlds', 4); R.floor('X4:model-before-printing', 1)
     return finish(R, 'other', tier, t0,
         'Engine S, inductively over all shapes of the node and of the two recursive results: model(a) implies a pointwise; a leaf is returned unchanged; the False result is '
         'returned only when the models of both children are False; every other result conjoins exactly one literal of the node\'s variable with the recursive model that was '
@@ -283,8 +283,8 @@ def check_C08(F, tier, t0):
     guarded(R, 'T tokens', engine_t.rule_tokens, F, R, 'all')
     guarded(R, 'T operators', engine_t.rule_operator_tables, F, R)
     guarded(R, 'T regex', engine_t.rule_regex, F, R)
-    R.floor('A1:consuming-parse-functions', 17); R.floor('A1:calls-to-consuming-functions', 50); R.floor('A2:parse-functions-walked', 15)
-    R.floor('A3:constructor-paths', 30); R.floor('A3:constructors-expected', 13); R.floor('T:regex-symbols', 20); R.floor('T:regex-groups', 6)
+    R.floor('A1:consuming-parse-functions', 10); R.floor('A1:calls-to-consuming-functions', 30); R.floor('A2:parse-functions-walked', 10)
+    R.floor('A3:constructor-paths', 20); R.floor('A3:constructors-expected', 13); R.floor('T:regex-symbols', 20); R.floor('T:regex-groups', 6)
     return finish(R, 'other', tier, t0,
         'Grammar-shape clauses: (A1) no Result of a token-consuming parse function is inspected instead of propagated (a failed attempt is never rewound, so this is necessary '
         'for "never accepted with some other meaning"); (A2) the right-hand sides of <formula>, <sub>, <simple> extracted from the parse functions (paths enumerated from THIR, '
@@ -303,7 +303,7 @@ def check_C09(F, tier, t0):
     guarded(R, 'S/O quantifier support', run_S, R, E, ['exists_impl', 'exists', 'all'])
     guarded(R, 'X4 vars', engine_x.rule_X4, F, R, ('vars',))
     guarded(R, 'X3 order', engine_x.rule_X3, F, R)
-    R.floor('functions', 5); R.floor('worlds', 34); R.floor('X4:extract_vars', 1); R.floor('X4:free_vars-fill', 1)
+    R.floor('functions', 5); R.floor('worlds', 16); R.floor('X4:extract_vars', 1); R.floor('X4:free_vars-fill', 1)
     return finish(R, 'other', tier, t0,
         'var_is_free is checked against the textbook definition for every in-scope constructor (binders of quantifiers and fixed points shadow; disjunction over children '
         'otherwise); vars = every Var token once, sorted by id; free_vars = exactly those v of vars with var_is_free(whole formula, v), in that order; the quantified symbol '
@@ -323,7 +323,7 @@ def check_C10(F, tier, t0):
     guarded(R, 'S var_is_free', run_S, R, E, [FRF], spec_bdd.B, False)
     guarded(R, 'S helper predicates', run_S, R, E, spec_bdd.HELPER_FNS, spec_bdd.B, False)
     guarded(R, 'T filter spellings', engine_t.rule_tte, F, R)
-    R.floor('X1:recursive-descent-sites', 4); R.floor('X2:row-filter-cases', 6); R.floor('X3:index-sites', 8); R.floor('T:filter-spelling-rows', 3)
+    R.floor('X1:recursive-descent-sites', 2); R.floor('X2:row-filter-cases', 6); R.floor('X3:index-sites', 4); R.floor('T:filter-spelling-rows', 3)
     return finish(R, 'other', tier, t0,
         'Clauses: branch polarity of both printers (true-branch records True); the row predicate over filter x leaf (printed iff filter=Any or filter=leaf) and -v printing '
         'exactly at the True leaf; index domains of every column access (to_free_index yields a position in free_vars, which is sorted by id; every index stays below the '
@@ -338,7 +338,7 @@ def check_C11(F, tier, t0):
     guarded(R, 'X3', engine_x.rule_X3, F, R)
     guarded(R, 'X4', engine_x.rule_X4, F, R, ('order', 'export'))
     guarded(R, 'H', engine_e.rule_H, F, R)
-    R.floor('X5:id-registration-sites', 2); R.floor('X4:ordering-flow', 1); R.floor('X4:export-ordering', 1)
+    R.floor('X5:id-registration-sites', 1); R.floor('X4:ordering-flow', 1); R.floor('X4:export-ordering', 1)
     return finish(R, 'other', tier, t0,
         'Clauses: counter invariant of tokenize (after every registration the fresh-id counter exceeds every registered id, names are looked up before a fresh id is taken); '
         'column look-up by id in the id-sorted free_vars (no position/id confusion); the -o file flows through tokenize + extract_vars into the parser\'s ordering argument; '
@@ -357,6 +357,14 @@ def check_C12(F, tier, t0):
             R.violation(key, rule, msg, loc)
         engine_g.key_type_impls_clean(F, R)
     guarded(R, 'G', g)
+    inl_callers = {}
+    for c in F.crates:
+        for caller, callee in getattr(c, 'inlined', []): inl_callers.setdefault(callee, set()).add(caller)
+    def attributed(fn, depth=0):
+        if fn not in inl_callers or depth > 4: return {fn}
+        out = set()
+        for c in inl_callers[fn]: out |= attributed(c, depth + 1)
+        return out
     def p():
         reach = engine_p.reachable(F, engine_p.ENTRIES)
         R.count('P:reachable-functions', len(reach))
@@ -371,9 +379,11 @@ def check_C12(F, tier, t0):
                 except Exception as ex:
                     reason = None
                 if reason: break
-            if reason is None and s.what.startswith(('Index', 'IndexMut', 'BoundsCheck')) and s.fn in ('rsbdd::print_truth_table_recursive', 'rsbdd::print_true_vars_recursive', 'rsbdd::print_sized_line'):
+            # a site inside a new helper function belongs to the anchored functions the helper was inlined into (X3 / X6 analysed it there)
+            owners = attributed(s.fn.split('::{closure')[0])
+            if reason is None and s.what.startswith(('Index', 'IndexMut', 'BoundsCheck')) and owners and owners <= {'rsbdd::print_truth_table_recursive', 'rsbdd::print_true_vars_recursive', 'rsbdd::print_sized_line'}:
                 if not x3_bad: reason = 'R5: index-domain typing X3 proves every index into the truth-table sequences below their length'
-            if reason is None and s.what == 'expect' and s.fn.endswith('GraphWalk>::edges') and 'SymbolicParseTree' in s.fn:
+            if reason is None and s.what == 'expect' and owners and all(o.endswith('GraphWalk>::edges') and 'SymbolicParseTree' in o for o in owners):
                 if not x6_bad: reason = 'R12: position(..) finds every child because nodes_recursive visits exactly the fields edges() asks for (X6)'
             if reason is None: reason = engine_p.site_table_reason(s)
             R.obligation(reason is not None, s.key)
@@ -394,7 +404,7 @@ def check_C12(F, tier, t0):
     x6_bad = [v for v in scratch6.violations]
     guarded(R, 'P', p)
     R.samples = R.samples[:12]
-    R.floor('P:sites', 40); R.floor('P:reachable-functions', 80); R.floor('G:guards', 10)
+    R.floor('P:sites', 25); R.floor('P:reachable-functions', 50); R.floor('G:guards', 5)
     return finish(R, 'other', tier, t0,
         'Exhaustive inventory, from MIR, of the panic-capable sites (overflow / bounds / division asserts, unwrap/expect, Index, RefCell borrows, explicit panics) in every '
         'function reachable from tokenize, ParsedFormula::new/eval and the binary\'s main (callbacks of dot/fmt traits included); each site must be discharged by a named '
@@ -433,8 +443,8 @@ def check_C13(F, tier, t0):
                 R.violation('rsbdd / W / type-level witnesses', 'W', 'a type-level witness (Freeze of diagram nodes / no &mut path to a shared node or to the table) or its compile_fail twin no longer holds: %s' % (r['tests'] or r['tail'][-400:]))
         guarded(R, 'W', w)
         R.floor('W:witness-doctests', 6)
-    R.floor('E1:Choice-constructor-sites', 2); R.floor('E3:table.insert', 3); R.floor('E3:nodes.borrow_mut', 1); R.floor('E3:nodes.borrow', 4)
-    R.floor('E4:Rc<BDD>::new-sites', 5); R.floor('E5:functions', 20); R.floor('E6:functions-reachable-from-ops', 40); R.floor('G2:key-impls', 6)
+    R.floor('E1:Choice-constructor-sites', 2); R.floor('E3:table.insert', 1); R.floor('E3:nodes.borrow_mut', 1); R.floor('E3:nodes.borrow', 2)
+    R.floor('E4:Rc<BDD>::new-sites', 2); R.floor('E5:functions', 10); R.floor('E6:functions-reachable-from-ops', 20); R.floor('G2:key-impls', 6)
     return finish(R, 'other', tier, t0,
         'Effect / ownership rules over the resolved program: the unique table has one writer (mk_choice; new() seeds exactly the two leaves), every insert stores key == *value, '
         'a look-up hit is returned as is, nothing removes or replaces entries, the table cell never escapes; diagram nodes are allocated only in new/mk_choice/the From '
@@ -463,7 +473,7 @@ def check_C15(F, tier, t0):
     import engine_n
     guarded(R, 'L-W', engine_l.rule_width, F, R, 'n_queens_gen')
     guarded(R, 'N', engine_n.rule_queens, F, R)
-    R.floor('L-W:arithmetic-sites', 12); R.floor('L-W:ranges', 8); R.floor('N:loop-nests', 6); R.floor('N:proved-lines', 6); R.floor('N:families', 4)
+    R.floor('L-W:arithmetic-sites', 6); R.floor('L-W:ranges', 4); R.floor('N:loop-nests', 6); R.floor('N:proved-lines', 6); R.floor('N:families', 4)
     return finish(R, 'proof', tier, t0,
         'Affine loop-nest analysis, symbolic in n (nothing is instantiated): each of the constraint loops is read from THIR as `for i in a..b { [ for j in c..d { v_E(i,j,n), } ] OP 1 }`; '
         'the index polynomial E is decomposed as row*n + col with 0 <= row, col < n proved from the loop bounds by Fourier-Motzkin elimination; every list is shown to be a whole '
@@ -477,7 +487,7 @@ def check_C16(F, tier, t0):
     R = Report('C16')
     guarded(R, 'L', engine_l.rule_max_clique, F, R)
     guarded(R, 'L templates', engine_l.rule_max_clique_templates, F, R)
-    R.floor('L:complement-push-sites', 2); R.floor('L:truth-table-rows', 16); R.floor('L:vertex-list-uses', 3); R.floor('L:template-skeleton-pieces', 10)
+    R.floor('L:complement-push-sites', 1); R.floor('L:truth-table-rows', 16); R.floor('L:vertex-list-uses', 3); R.floor('L:template-skeleton-pieces', 6)
     return finish(R, 'other', tier, t0,
         'Clauses: the complement-edge guard as a truth table over {v1==v2, -u, E(v1,v2), E(v2,v1), already-emitted(v2,v1)} equals the specification (directed: constrained '
         'unless the edge exists; undirected: unless either direction exists, once per unordered pair); v1,v2 both range over the vertex set; both copies of the constraints are '
@@ -491,7 +501,7 @@ def check_C18(F, tier, t0):
     guarded(R, 'L', engine_l.rule_random_graph, F, R)
     guarded(R, 'L writers', engine_l.rule_graph_writers, F, R)
     guarded(R, 'L colours', engine_l.rule_colour_vertices, F, R)
-    R.floor('L:refuse-not-truncate', 1); R.floor('L:candidate-push-sites', 2); R.floor('L:complete-count', 1); R.floor('L:truth-table-rows', 22); R.floor('L:edge-writer-sites', 3)
+    R.floor('L:refuse-not-truncate', 1); R.floor('L:candidate-push-sites', 1); R.floor('L:complete-count', 1); R.floor('L:truth-table-rows', 22); R.floor('L:edge-writer-sites', 3)
     return finish(R, 'other', tier, t0,
         'Clauses: generate_graph returns Ok only with the checked slice candidates[0..E] and Err otherwise (refuse, never truncate; exactly E edges by the slice contract); '
         'directed candidates are inserted iff i != j, undirected ones are taken from vertices[(i+1)..] (no self pair, each pair once); --complete requests V(V-1) resp. '
@@ -521,7 +531,7 @@ def check_C19(F, tier, t0):
         for (key, rule, msg, loc, cell) in engine_g.guard_regions(F, R):
             if cell[0] == 'rsbdd::set::BDDSet': R.violation(key, rule, msg, loc)
     guarded(R, 'G1', g)
-    R.floor('functions', 7); R.floor('E7:query-methods', 1); R.floor('G:guards', 10); R.floor('aliased-runs', 3)
+    R.floor('functions', 7); R.floor('E7:query-methods', 1); R.floor('G:guards', 5); R.floor('aliased-runs', 3)
     return finish(R, 'other', tier, t0,
         'Signatures of the set operations by engine S on the tracked RefCell content: union/intersect/complement write the receiver\'s cell once with old-self or/and/and-not '
         'old-other (also with the operand aliased to the receiver), never the operand\'s; insert ors in the minterm whose i-th literal is chosen by categorize(e,i) for i in '
